@@ -40,7 +40,7 @@ func main() {
 	r := chain.ModelCheck(c, mc, 10*time.Minute)
 	c.Cov("mc_v2_states", r.Distinct)
 	mc1 := chain.BaseConfig(chain.Shapes()["v1only"])
-	mc1.MaxHeight, mc1.MaxTxns, mc1.MaxReverts = 3, 2, 1
+	mc1.MaxHeight, mc1.MaxTxns, mc1.MaxReverts = 2, 2, 1
 	mc1.Templates = []string{"pay", "sf", "form1", "rev1", "prove1"}
 	mc1.PayAmts, mc1.Pay1, mc1.Sizes, mc1.P.GenSC = []int{599}, []int{256411}, []int{64}, []chain.AbsOut{{300000, "A"}, {1199, "B"}}
 	mc1.Invariants = mc.Invariants
